@@ -229,6 +229,17 @@ def p_C02(ctx):
     runs = [{"tag": "base"}, {"tag": "k1", "kexp": [1, 1]}, {"tag": "k3", "kexp": [3, 10], "area": [5, 2]}]
     ctx.replay(file_cases(runs), "files", "Trace_C02")
     ctx.samples += ctx.sample_from_trace(ctx.last_trace, 1)
+    # buildings outside the lattice's skeleton: the hand-written shapes of C08 (auxiliaries as the only electricity,
+    # output lines first, exported heat ...) and the MC_Comp family of systems with auxiliaries
+    shapes = [{"src": {"text": t}, "fac": {"mode": "loc", "loc": loc}, "kexp": [1, 2], "area": [5, 2], "lm": False, "runs": [{"tag": "base"}]}
+              for t in C08_SHAPES for loc in ("PENINSULA", "CANARIAS")]
+    ctx.replay(shapes, "shapes", "Trace_C02")
+    c06 = ctx.mc("MC_Comp", "MC_Comp_C06_thorough.cfg")
+    def evalable(cs):
+        for c in cs:
+            c.update({"fac": {"mode": "loc", "loc": "PENINSULA"}, "kexp": [1, 2], "area": [1, 1], "lm": False, "runs": [{"tag": "base"}]})
+            yield c
+    ctx.replay(evalable(stride(vlib.mc_cases(c06), 12 if ctx.quick else 2, ctx.seed % 12 if ctx.quick else 0)), "aux-family", "Trace_C02")
     ctx.nontrivial = set(range(nl))
     ctx.extra["exhaustive"] = True
     ctx.extra["lattice_cases"] = nl
@@ -388,7 +399,7 @@ C08_SHAPES = [
     # output-energy lines and PV declared after them
     "1, SALIDA, ACS, 5.0\n1, CONSUMO, ACS, GASNATURAL, 6.0\n0, PRODUCCION, EL_INSITU, 4.0\n0, CONSUMO, ILU, ELECTRICIDAD, 2.0",
     # auxiliaries as the only electricity of the building
-    "1, CONSUMO, ACS, GASNATURAL, 10.0\n1, AUX, 1.5",
+    "1, CONSUMO, ACS, GASNATURAL, 10.0\n1, AUX, 2.0",
     # cogeneration exporting to non-EPB uses
     "0, CONSUMO, ILU, ELECTRICIDAD, 1.0\n0, CONSUMO, NEPB, ELECTRICIDAD, 4.0\n3, PRODUCCION, EL_COGEN, 6.0\n3, CONSUMO, COGEN, GASNATURAL, 20.0",
     # exported ambient and solar energy (surplus declared production), non-EPB use of heat
@@ -396,7 +407,7 @@ C08_SHAPES = [
     # PV + cogeneration + non-EPB use + district heating, several steps
     "0, CONSUMO, ILU, ELECTRICIDAD, 1.0, 5.0\n0, CONSUMO, NEPB, ELECTRICIDAD, 1.0, 0.0\n0, PRODUCCION, EL_INSITU, 3.0, 1.0\n3, PRODUCCION, EL_COGEN, 2.0, 2.0\n3, CONSUMO, COGEN, BIOMASA, 7.0, 9.0\n4, CONSUMO, CAL, RED1, 3.0, 3.0\n4, CONSUMO, ACS, RED2, 3.0, 3.0",
     # single-service system with auxiliaries and output energy
-    "1, CONSUMO, REF, ELECTRICIDAD, 4.0\n1, SALIDA, REF, -12.0\n1, AUX, 0.5",
+    "1, CONSUMO, REF, ELECTRICIDAD, 4.0\n1, SALIDA, REF, -12.0\n1, AUX, 1.0",
 ]
 
 
